@@ -3,26 +3,32 @@ C08 — pruning preserves commitment and behaviour and satisfies anti-DoS.
 
 Three layers, and which theorem is about which:
 
-(P) **plan level** — the executable functions the driver's `prune` verb runs (`PrunePlan.lean`):
-    `evalT` (tracker), `pruneNode`/`prunePlan` (the `prune_case` table), `Prog.cmrNode`/`cmrs`,
-    `constraintsM`/`inferM` (re-inference), `pruneV` (`Value::prune`).  Theorems `cmr_prune`,
-    `cmr_prune_plan`, `tracker_is_eval`, `types_shrink`, `reinference_succeeds`,
-    `witness_prune_defined`, `prune_table_idempotent` are full statements about these functions.
+(P) **plan level** — the executable functions behind the driver's `prune` verb (`PrunePlan.lean`,
+    `PrunePipeline.lean`): `evalT` (tracker), `pruneNode`/`prunePlan` (the `prune_case` table),
+    `Prog.cmrNode`/`cmrs`, `constraintsM`/`inferM` (re-inference), `reachable`, `pruneV`/`pruneWit`
+    (`Value::prune`), `antiDosOK`, and the whole pipeline `prunePipeline` / `Pruned.antiDos`.
+    Full statements about these functions:
+    * `cmr_prune`, `cmr_prune_plan`, `tracker_is_eval`, `types_shrink`, `reinference_succeeds`,
+      `witness_prune_defined`, `prune_table_idempotent`;
+    * **the re-typed pruned program** (`PruneRetype.lean` …): `eval_prune_retyping` — the pruned plan
+      elaborated with its RE-INFERRED arrows and `pruneWit`-pruned witnesses maps the pruned input to
+      the pruned output and leaves the same tracker record; `antiDoS_plan`/`antiDoS_driver` — on that
+      run every reachable node is executed and every remaining case takes both sides, `disconnect`
+      included, when the identities of the first run are pairwise distinct on the plan;
+      `prune_idempotent_plan`/`prune_idempotent_reachable` — pruning again for the same run leaves the
+      pruned program, its reachable set, its re-inferred arrows and its witness bits as they are;
+      `pipeline_antiDos` — all of it for `prunePipeline`/`Pruned.antiDos` themselves.
 (T) **typed-term level** — `Prog.pruneTerm` on the intrinsically typed terms the driver evaluates
     (every node kind, `disconnect` included), types kept: `eval_prune_pruner_step` (same output, same
     tracker record, pruning again changes nothing).  Connected to the plan level by
     `plan_pruning_is_term_pruning` (`PruneBridge.lean`: elaborating the pruned plan with the arrows of
     the original plan gives `pruneTerm` of the original term), whence the plan-level statement
-    `eval_prune_plan_original_types`.  What is *not* proved is the other step: that the pruned plan
-    elaborated with its *re-inferred* arrows and pruned witnesses behaves the same (see (A)).
-(A) **abstract models** — `Prune.lean` (`ShrinkOn`, `eval_shrink`: re-typing with shrunken types and
-    pruned witnesses keeps the behaviour) and `PruneTrace.lean` (identity-labelled skeletons without
-    `disconnect`: `prune_spec`, `antiDoS`).  Restated here as `…_partial`: the relation between the
-    plan-level pipeline and these models (that the re-typed pruned plan elaborates to a term
-    `ShrinkOn`-related to the original; that the skeleton of a plan satisfies `IdsFaithful`, i.e.
-    identity roots do not collide) is not proved — it is sampled: on every generated case the
-    model's own run of its pruned plan must succeed and must satisfy the anti-DoS conditions, and
-    must agree with what libsimplicity says about the Rust-pruned program.
+    `eval_prune_plan_original_types`.
+(A) **abstract models** — `Prune.lean` (`ShrinkOn`, `eval_shrink`) and `PruneTrace.lean`
+    (identity-labelled skeletons without `disconnect`: `prune_spec`, `antiDoS` under `IdsFaithful`).
+    Kept, still named `…_partial` because they are not about the plan-level functions; each is now
+    accompanied by a full plan-level theorem (see their comments for what the plan-level theorem
+    does *not* cover: plans in which two different nodes carry the same identity root).
 -/
 import SimplicityModel.PrunePlanProps
 import SimplicityModel.PruneTerm
@@ -93,7 +99,7 @@ theorem reinference_succeeds (jt : JetTypes) (S : List (Nat × Bool)) (ids : Nat
 /-- **Witness pruning cannot panic** (the `expect("pruned type should be shrunken version of
 unpruned type")` of the code): a witness value of its node's original target type is pruned
 successfully to the node's re-inferred target type; the result has exactly that type and is the
-value `pr` that the behavioural theorem `eval_prune_retyping_partial` speaks about. -/
+value `pr` that the behavioural theorem `eval_prune_retyping` speaks about. -/
 theorem witness_prune_defined (jt : JetTypes) (S : List (Nat × Bool)) (ids : Nat → Nat) (cm : Nat → Nat)
     (p : Plan) (mask : Nat → Bool) (prog : Bool) {arr arr' : Array (Ty × Ty)}
     (h : inferM jt p (fun _ => true) prog = .ok arr)
@@ -438,25 +444,29 @@ theorem eval_prune_plan_original_types (ids : Nat → Nat) (cm : Nat → Nat) (e
   rw [h2]
   exact evalT_pruneTerm tr.sides x.2.2 _ v o tr hrun (fun _ hp => hp)
 
-/-! ## (A) abstract models (bridge to the plan level sampled, not proved) -/
+/-! ## (A) abstract models (each accompanied by a full plan-level theorem above) -/
 
 /-- **Same behaviour after re-typing** (`Prune.lean`).  If `t'` is `t` with arbitrary other types,
 witness values pruned to the new types (`pr`), jets and words unchanged, and case nodes possibly
 replaced by assertions hiding the branch *not taken on input `v`* (`ShrinkOn t' t v`), then a
 successful run of `t` on `v` with output `out` implies that `t'` maps the pruned input to the pruned
-output.  *Partial*: that the term elaborated from the pruned plan with its *re-inferred* arrows and
-`pruneV`-pruned witnesses is `ShrinkOn`-related to the term of the original plan is not proved
-(`types_shrink`, `witness_prune_defined` and `plan_pruning_is_term_pruning` are the ingredients; the
-driver runs the re-typed pruned plan on every sampled case). -/
+output.  *Partial* only in that it speaks about the abstract relation `ShrinkOn`; the statement
+for the plan-level pipeline (`prunePlan` + `inferM` + `pruneWit`, elaborated by `elabNode`) is the
+full theorem `eval_prune_retyping` above, proved directly by induction over the plan (it also gives
+the tracker record, which `ShrinkOn` does not speak about).  That the elaborated pair of terms is
+`ShrinkOn`-related is not stated separately. -/
 theorem eval_prune_retyping_partial {a' b' a b : Ty} {t' : Term a' b'} {t : Term a b} {v : Val}
     (h : ShrinkOn t' t v) (out : Val) (he : eval t v = some out) :
     eval t' (pr a' v) = some (pr b' out) :=
   eval_shrink h out he
 
 /-- **Prune succeeds when the run does, same output and record, pruning again changes nothing**
-(`PruneTrace.lean`, identity-labelled skeletons).  *Partial*: skeletons have no `disconnect` node
-and are not derived from plans by a proved translation; the typed-term statement above
-(`eval_prune_pruner_step`) covers every node kind. -/
+(`PruneTrace.lean`, identity-labelled skeletons).  *Partial*: skeletons have no `disconnect` node,
+no types, and are not derived from plans.  The plan-level statements are `eval_prune_pruner_step`
+/ `eval_prune_plan_original_types` (types kept, every node kind) and `prune_idempotent_plan`
+(re-inferred types, witness bits and reachable set included; it needs the identities of the first
+run pairwise distinct on the plan, because the identity roots of the re-typed program differ from
+those of the original and the second tracker record can only be compared through plan indices). -/
 theorem prune_idempotent_partial (s : PT.Sk) (v o : PT.Val) (tr : PT.Tr) (h : PT.eval s v = some (o, tr)) :
     ∃ p, PT.prune s v = some p ∧ PT.eval p v = some (o, tr) ∧ PT.prune p v = some p :=
   PT.prune_spec s v o tr h
@@ -464,9 +474,16 @@ theorem prune_idempotent_partial (s : PT.Sk) (v o : PT.Val) (tr : PT.Tr) (h : PT
 /-- **Anti-DoS** (`PruneTrace.lean`).  When identities are faithful (one identity, one sub-DAG:
 identity roots do not collide), the run of the pruned program records every node of the pruned
 program as executed and both sides of every remaining case node — including the case nodes kept
-with *neither* side recorded, which are shown to be unreachable.  *Partial* as above; the driver
-evaluates the same two conditions on its own run of every pruned plan (`antidos=`) and the harness
-compares with `evalTCOExpression(CHECK_ALL)`. -/
+with *neither* side recorded, which are shown to be unreachable.  *Partial*: skeletons, no
+`disconnect`.  The plan-level statements are `antiDoS_plan`, `antiDoS_driver` and `pipeline_antiDos`
+(every node kind; hypothesis: identity roots pairwise distinct on the plan, which is what the
+decoder enforces).  What neither covers: plans in which two *different* nodes carry the same
+identity root (the harness builds such programs without decoding them).  There the tracker merges
+the records of the two nodes while re-inference may give them different types, hence different
+identity roots in the pruned program; `IdsFaithful` of the skeleton model has no types and does not
+see this.  That case is sampled: the driver evaluates the conditions at identity-root granularity
+on its own run of every pruned plan (`antidos=`) and the harness compares with
+`evalTCOExpression(CHECK_ALL)`; libsimplicity itself is not modelled. -/
 theorem antiDoS_partial (s : PT.Sk) (hf : PT.IdsFaithful s) (v o : PT.Val) (tr : PT.Tr)
     (h : PT.eval s v = some (o, tr)) :
     PT.eval (PT.pruneBy tr.sides s) v = some (o, tr) ∧
